@@ -324,9 +324,18 @@ class Lib:
         x = fresh('cx', I)
         le = _ChainEnv(env)
         run.assign(g.target, mk(x), le, e.lineno)
-        conds = [run.truth(run.ev(c, le), e.lineno) for c in g.ifs]
-        cond = And(*conds) if conds else None
-        elt = run.ev(e.elt, le)
+        guard = self.protect_doms(run, env)
+        saved_ta = len(run.temp_assume)
+        run.temp_assume.append(And(0 <= x, x < seq.n))
+        try:
+            conds = [run.truth(run.ev(c, le), e.lineno) for c in g.ifs]
+            cond = And(*conds) if conds else None
+            if cond is not None:
+                run.temp_assume.append(cond)
+            elt = run.ev(e.elt, le)
+        finally:
+            del run.temp_assume[saved_ta:]
+            self.restore_doms(run, guard)
         if not z3.is_expr(elt):
             if isinstance(elt, PyConst) and isinstance(elt.v, str) and elt.v in so.S['status_const']:
                 elt = so.S['status_const'][elt.v]
@@ -358,8 +367,60 @@ class Lib:
         res.src, res.dst, res.base, res.cond_at, res.elt_at = src, dst, seq, (lambda i: at(cond, i)), (lambda i: at(elt, i))
         return res
 
+    def protect_doms(self, run, env):
+        """reads of defaultdicts inside a comprehension body are evaluated at a bound (symbolic) key: the key
+        must not leak into the map's domain term; afterwards the domain is havocked to a superset"""
+        out = []
+        seen = set()
+        e = env
+        while e is not None:
+            for v in list(dict.values(e)):
+                if isinstance(v, SDict) and v.default is not None and id(v) not in seen:
+                    seen.add(id(v))
+                    out.append((v, v.dom))
+            e = getattr(e, 'parent', None)
+        return out
+
+    def restore_doms(self, run, guard):
+        for d, dom in guard:
+            if d.dom is not dom and not d.dom.eq(dom):
+                d.dom = dom
+                old = dom
+                d.havoc_dom()
+                run.assume(so.forall(d.ksort, lambda k, old=old, d=d: Implies(old[k], d.dom[k])))
+                run.assume(d.wellformed())
+
     def dictcomp(self, run, e, env):
-        raise Unsupported('dict comprehension at line %d (declare a typed local + builder in the contract)' % e.lineno)
+        """{key_var: expr for key_var in D.keys()}  ->  dict with the same domain, values defined pointwise"""
+        from .engine import _ChainEnv
+        if len(e.generators) != 1 or e.generators[0].ifs:
+            raise Unsupported('dict comprehension shape at line %d' % e.lineno)
+        g = e.generators[0]
+        src = run.ev(g.iter, env)
+        if isinstance(src, tuple) and src and src[0] == 'keys':
+            src = src[1]
+        if not (isinstance(src, SDict) and isinstance(g.target, ast.Name) and isinstance(e.key, ast.Name) and e.key.id == g.target.id):
+            raise Unsupported('dict comprehension at line %d' % e.lineno)
+        x = fresh('dk', src.ksort)
+        le = _ChainEnv(env)
+        le[g.target.id] = x
+        saved = len(run.temp_assume)
+        run.temp_assume.append(src.dom[x])
+        guard = self.protect_doms(run, env)
+        try:
+            val = run.ev(e.value, le)
+        finally:
+            del run.temp_assume[saved:]
+            self.restore_doms(run, guard)
+        if not z3.is_expr(val):
+            raise Unsupported('dict comprehension value at line %d' % e.lineno)
+        res = SDict(src.ksort, val.sort(), dom=src.dom, name='dcomp')
+        if src.ksort == I and so.Mode.finite:
+            run.assume(so.forall_idx(IntVal(so.Mode.lmax + 1), lambda k: Implies(src.dom[k], res.val[k] == z3.substitute(val, (x, k)))))
+        else:
+            run.assume(so.forall(src.ksort, lambda k: Implies(src.dom[k], res.val[k] == z3.substitute(val, (x, k)))))
+        res.defined_from = src
+        return res
 
     # ----------------------------------------------------------------------------------------------
     def builtin(self, run, name, args, kw, lineno):
@@ -478,14 +539,27 @@ class Lib:
         if name == 'dict':
             if not args:
                 return _EmptyDict()
+            v = args[0]
+            if isinstance(v, tuple) and v and v[0] == 'gdegree':
+                G = v[1]
+                U = so.U()
+                u = z3.Const('deg_u', U)
+                return SDict(U, I, dom=z3.K(U, BoolVal(True)), val=z3.Lambda([u], G.degf(u)), name='degree')
             raise Unsupported('dict(...)')
         if name == 'Counter':
             v = args[0] if args else None
             if isinstance(v, tuple) and v and v[0] == 'values':
                 d = v[1]
                 C = SDict(d.vsort, I, default=IntVal(0), name='counter')
+                C.no_insert = True        # Counter.__missing__ returns 0 without inserting the key
                 run.assume(so.forall(d.vsort, lambda x: C.dom[x] == so.exists(d.ksort, lambda k: And(d.dom[k], d.val[k] == x))))
                 run.assume(so.forall(d.vsort, lambda x: If(C.dom[x], C.val[x] >= 1, C.val[x] == 0)))
+                if z3.is_true(z3.simplify(so.forall(d.ksort, lambda k: d.dom[k]))) or d.name == 'degree':
+                    C.count_of = d.val
+                    if so.Mode.finite:
+                        run.assume(so.forall_idx(IntVal(so.Mode.lmax + 1), lambda x: C.val[x] == so.cnt(d.val, x)))
+                    else:
+                        run.assume(so.forall(d.vsort, lambda x: C.val[x] == so.cnt(d.val, x)))
                 return C
             raise Unsupported('Counter(%r)' % (v,))
         if name in ('max', 'min') and len(args) == 1 and isinstance(args[0], tuple) and args[0] and args[0][0] == 'keys':
@@ -708,4 +782,6 @@ class Lib:
             return BoolVal(G.directed)
         if attr == 'degree' and len(args) == 1:
             return G.degf(coerce(args[0], so.U()))
+        if attr == 'degree' and not args:
+            return ('gdegree', G)
         raise Unsupported('graph method %s at line %d' % (attr, lineno))
